@@ -62,6 +62,32 @@ func isTableOf(v ssa.Value, field string) bool {
 	if isFieldAddrOf(v, field) {
 		return true
 	}
+	if par, ok := v.(*ssa.Parameter); ok {
+		// a helper (a method of the table type) that patches the table it is given: every call passes &d.c
+		h := par.Parent()
+		k := -1
+		for i, q := range h.Params {
+			if q == par {
+				k = i
+			}
+		}
+		sites := 0
+		for f := range ssautilAllFunctionsOf(h) {
+			for _, b := range f.Blocks {
+				for _, ins := range b.Instrs {
+					c, ok := ins.(*ssa.Call)
+					if !ok || c.Call.StaticCallee() != h || k < 0 || k >= len(c.Call.Args) {
+						continue
+					}
+					sites++
+					if !isFieldAddrOf(c.Call.Args[k], field) {
+						return false
+					}
+				}
+			}
+		}
+		return sites > 0
+	}
 	al, ok := v.(*ssa.Alloc)
 	if !ok {
 		return false
@@ -281,4 +307,36 @@ func globalTableLookup(v ssa.Value) (*ssa.Global, ssa.Value, bool) {
 		}
 	}
 	return nil, nil, false
+}
+
+// ssautilAllFunctionsOf: the functions of the package h belongs to (members, methods and their closures).
+func ssautilAllFunctionsOf(h *ssa.Function) map[*ssa.Function]bool {
+	out := map[*ssa.Function]bool{}
+	if h.Pkg == nil {
+		return out
+	}
+	var add func(f *ssa.Function)
+	add = func(f *ssa.Function) {
+		if f == nil || out[f] {
+			return
+		}
+		out[f] = true
+		for _, af := range f.AnonFuncs {
+			add(af)
+		}
+	}
+	for _, m := range h.Pkg.Members {
+		switch x := m.(type) {
+		case *ssa.Function:
+			add(x)
+		case *ssa.Type:
+			for _, t := range []types.Type{x.Type(), types.NewPointer(x.Type())} {
+				ms := h.Prog.MethodSets.MethodSet(t)
+				for i := 0; i < ms.Len(); i++ {
+					add(h.Prog.MethodValue(ms.At(i)))
+				}
+			}
+		}
+	}
+	return out
 }
